@@ -172,15 +172,19 @@ def gen_planted_dataset(seed, nq, grid):
     N = rng.randint(300, 600)
     g = (lambda x: round(round(x * 2) / 2.0, 1)) if grid == 0.5 else (lambda x: round(x, 1))
     pos = [g(rng.choice([20.0, 1000.0, 5000.0, rng.uniform(0, 30000)]))]
-    for _ in range(N - 1):
-        pos.append(g(pos[-1] + 2000 + g(rng.expovariate(1 / 7000.0))))
+    tight = rng.random() < 0.6       # short gaps (2.0-2.6 kb) at both ends of the reference: a window 4 labels from an end is then only ~10 kb
+    for k in range(N - 1):           # from it, so the secondary correlation window (+-secondaryMargin) hangs over the end of the reference
+        if tight and (k < 7 or k >= N - 8):
+            pos.append(g(pos[-1] + 2000 + rng.choice([0.0, 100.0, 350.5, 600.0])))
+        else:
+            pos.append(g(pos[-1] + 2000 + g(rng.expovariate(1 / 7000.0))))
     rid = rng.randint(1, 25)
     refs = [(rid, g(pos[-1] + rng.choice([1.0, 5000.0, 123.4])), pos)]
     qs = []; truth = {}
     qid = rng.randint(1, 300)
     for _ in range(nq):
         n = rng.randint(15, 45)
-        a = rng.randint(4, N - 4 - n)
+        a = rng.choice([4, N - 4 - n, rng.randint(4, N - 4 - n), rng.randint(4, N - 4 - n)])     # half of the windows as close to an end as allowed
         w = pos[a:a + n]
         rev = rng.random() < 0.5
         off = g(rng.choice([0.0, 20.0, 1234.5, rng.uniform(0, 50000), rng.uniform(0, 3000000)]))
